@@ -63,8 +63,21 @@ def snake_of(variant):
     return "_".join(w.upper() for w in camel_words(variant))
 
 
-def literal(rng):
-    """(text, exact value); values distinct enough in f64 unless a tie is wanted"""
+TINY = ["0.00000000000000001", "0.000000000000000001", "1e-17", "1e-18", "1e-19", "2e-17", "0.0000000000000000001", "3e-18", "1.5e-17", "1e-30", "2e-30"]
+CLOSE = ["1.0000000000000002", "1.0000000000000004", "0.9999999999999999", "0.9999999999999998", "1.000000000000001", "2.0000000000000004", "2.000000000000001",
+         "1000.0000000000001", "1000.0000000000002", "999.9999999999999"]
+
+
+def literal(rng, regime=None):
+    """(text, exact value); values distinct enough in f64 unless a tie is wanted.
+    Regimes: scales below the machine epsilon (absolute differences < 2.2e-16) and
+    scales one or two ulps apart — an order by scale has to separate them too."""
+    if regime == "tiny":
+        t = rng.choice(TINY)
+        return t, Fraction(t)
+    if regime == "close":
+        t = rng.choice(CLOSE)
+        return t, Fraction(t)
     form = rng.choice(["int", "float", "float", "exp", "dot", "frac"])
     if form == "int":
         v = rng.choice([1, 2, 5, 12, 60, 100, 1000, 3600, 86400, 1000000, 1024])
@@ -108,6 +121,10 @@ class Def:
         q = "#[quantity]" if self.qargs is None else f"#[quantity({self.qargs})]"
         return "\n    ".join([q] + [u.attr() for u in self.units] + ["/// generated", self.struct.format(name=self.name)])
 
+    def fits_decimal(self):
+        """every scale has at most 18 fractional digits (fpdec's Dec! rejects longer literals at compile time)"""
+        return all(u.val is None or (10 ** 18 * u.val).denominator == 1 for u in self.units)
+
     def expected(self):
         """(path, [units in iteration order]) re-derived from the declaration"""
         ref = [u for u in self.units if u.kind == "ref_unit"]
@@ -140,8 +157,9 @@ def well_formed(rng, k, with_ref=None, n_units=None, derived=False):
         rp = rng.choice([None, "NONE", "KILO", "MILLI"])
         units.append(Unit(ident(rng, used), syms.pop(), rp, None, Fraction(1), rng.choice([None, "the reference"]), kind="ref_unit"))
         vals = set()
+        regime = rng.choice([None, None, None, "tiny", "close"])
         for _ in range(max(0, n - 1)):
-            lit, val = literal(rng)
+            lit, val = literal(rng, regime if rng.random() < 0.8 else None)
             if rng.random() < 0.15:
                 lit, val = rng.choice([("1", Fraction(1)), ("1.0", Fraction(1)), ("1e0", Fraction(1))])      # ties with the reference unit
             pfx = None
@@ -151,7 +169,8 @@ def well_formed(rng, k, with_ref=None, n_units=None, derived=False):
                 e = PREFIXES[p] - PREFIXES[rp]
                 if -12 <= e <= 12:
                     pfx, val = p, Fraction(10) ** e
-                    lit = (str(10 ** e) if e >= 0 else ("0." + "0" * (-e - 1) + "1")) if rng.random() < 0.7 else f"1e{e}"
+                    # an unsuffixed integer literal is typed i32 by rustc before `as f64`: beyond i32 write a float literal
+                    lit = ((str(10 ** e) + ("" if e <= 9 else ".")) if e >= 0 else ("0." + "0" * (-e - 1) + "1")) if rng.random() < 0.7 else f"1e{e}"
             sym = syms.pop() if syms and rng.random() < 0.9 else rng.choice(SYMS)     # sometimes a duplicate symbol
             units.append(Unit(ident(rng, used), sym, pfx, lit, val, rng.choice([None, None, "doc " + sym])))
     else:
